@@ -331,6 +331,7 @@ func additive(symbols []pr.IntNamedString, value int) (string, bool) {
 				return symbol(vs.NamedString), true
 			}
 		}
+		return "", false // no tuple of weight 0: the value has no representation
 	}
 	if len(symbols) == 0 {
 		return "", false
